@@ -714,7 +714,7 @@ class Interp:
         if isinstance(v, (Ptr, FnRef, StructVal)):
             return True
         if v is UNINIT:
-            raise Unsupported('branch on uninitialised value at %s' % (tag,))
+            raise Terminal('uninitialised-branch', 'the program branches on a value that was never written (%s): what it does next depends on what the storage happened to hold' % (tag,))
         s = self.sv_of(v)
         if s:
             sym, m = s
